@@ -92,12 +92,22 @@ JOBS["C08"] = [
     H("machine", "dkgnet", "^TestC08StateMachine$", {"shards": 10, "checks": 8, "timeout": 1500}, {"shards": 14, "checks": 150, "timeout": 3400, "steps": 60}),
 ]
 
+JOBS["C07"] = [
+    H("continuity", "beaconnet", "^TestC07Continuity$", {"shards": 12, "checks": 12, "timeout": 1500}, {"shards": 14, "checks": 250, "timeout": 3400}),
+]
+
 LEVELS = {"C13": "fault_enumeration"}
 
 _MACHINE = ("rapid state machine over a network of real beacon handlers: scheme in 5, n in 2..6, t in [n/2+1,n], back-end in {memdb (cap 2000 or 10), bolt trimmed, bolt untrimmed}, period 2..6 s; "
             "actions: tick, sub-period advance, burst of 2-6 periods, advance of a subset (skew/stall), realign, partition/heal, queue mode with generated delivery order and drops, duplicate mode, stop/restart (same or fresh store), "
             "forged partial injection (12 kinds incl. valid-for-clock+k), scripted lying sync peer (13 kinds), sync-stream tap. ")
 RULES = {
+    "C07": "a running network of real beacon handlers (scheme in 5, n0 in 3..5, t0 in range, 3 back-ends) is reshared by the harness playing internal/core's part: next epoch = fresh polynomial with the same secret, 0..n0-1 leavers, 0..2 joiners, "
+           "new threshold in range, transition at round now+2..5; each remainer gets TransitionNewGroup at a drawn tick before the transition, joiners are started with NewHandler+Transition at a drawn tick, leavers keep running with their old shares or are stopped. "
+           "Oracle: chain info (hash, key, genesis time/seed, period, scheme, id) identical before/after; C01 (every Put verifies) + C02 (append-only, gap-free, no fork) across rounds rT-3..rT+5; when >= t1 members of the new group hold the new share in time "
+           "every member of the new group follows the clock across the transition (no halted round); afterwards a valid partial made with a share of the previous polynomial is refused by every switched member, and with everything queued an observer given exactly "
+           "t1-1 new-epoch partials plus the leavers' old-share partials stores nothing (threshold oracle of C03 evaluated per node with the polynomial that node holds). Reshare identity through real DKG runs is checked in C06 (same key, same chain hash). "
+           "Non-trivial: membership or threshold changed; distinct by configuration + reshare shape + switch schedule.",
     "C08": "rapid state machine over 5 real dkg.Process instances with real bolt dkg.db files (all Fresh, or 3 of them holding a completed epoch 1 written by the harness), ~30 steps (thorough 60): valid proposals built from the live membership "
            "(first epoch or reshare with drawn leavers/joiners/threshold), operator commands on arbitrary nodes (accept, reject, join with the right / no / a garbage group file, execute, abort), commands the protocol must refuse (threshold below minimum / above n, "
            "expired timeout, dropping a current member, unknown scheme), proposals signed with the real leader key but stale epoch / epoch+2 / bad threshold / expired / changed genesis time or seed / foreign beacon id delivered to every node, and in 1/3 of the cases "
@@ -173,6 +183,8 @@ RULES = {
 }
 
 ASSUMPTIONS = {
+    "C07": ["the harness re-implements core's orchestration (transitionToNext / joinNetwork / leaveNetwork): defects inside those functions are outside this check", "new shares are handed over before round rT-1 is stored (the daemon does so ~10 rounds ahead)",
+            "old shares stay shares of the same secret: a threshold of leavers that keeps running can still sign (inherent to resharing, not asserted)", "failed / aborted reshare leaving the old group producing is covered at the DKG level by C08 (records untouched), not with beacons"],
     "C08": ["time-outs (TimedOut state) are not generated: the code has no path into that state besides the operator", "after a partial completion (some nodes finished, some not) the model stops following the history", "nodes in state Left are not proposed again (listed known finding)"],
     "C09": ["a fresh joiner may trust member keys supplied in the packet (as the statement allows): those forgeries are recorded as exempt", "the signed-message replica in the harness is validated against the code under test in every case"],
     "C06": ["kyber's Pedersen DKG is sound under reliable (possibly slow, reordering, duplicating) delivery", "DKG randomness comes from crypto/rand: cases are reproducible in structure, not in key bytes", "phase timeout 2 s, kick-off grace 250 ms (real time)"],
